@@ -8,7 +8,8 @@ From V Require Import Base.Bytes Base.Obs Base.Val Model.Stack Model.Truthy.
 Inductive view :=
 | VText (p : bytes)        (* {{ p }}: Stack.Resolve, nil and undefined print nothing *)
 | VExpr (n : bytes)        (* {{ n + '' }} / {{ n + 0 }}: the expression environment (EnvMap) *)
-| VAttr (p : bytes).       (* :data-k="p": Resolve, the attribute is omitted when falsy *)
+| VAttr (p : bytes)        (* :data-k="p": Resolve, the attribute is omitted when falsy *)
+| VProp (p : bytes).       (* :v="p" on an include of a probe component that prints {{ v }}: a falsy value is not passed *)
 (* a sibling list: probe elements and loops, each followed by its next sibling *)
 Inductive tpl :=
 | TNil
@@ -20,6 +21,7 @@ Definition show_view (s : stack) (w : view) : bytes :=
   | VText p => match resolve s p with Some v => if is_nil v then [] else sprint v | None => [] end
   | VExpr n => match assocb n (envmap s) with Some v => sprint v | None => bs "<undefined>" end
   | VAttr p => match resolve s p with Some v => if truthy v then x3d :: sprint v else [x2d] | None => [x2d] end
+  | VProp p => match resolve s p with Some v => if truthy v then sprint v else [] | None => [] end
   end.
 Definition record := (nat * list bytes)%type.
 Definition mkrec (s : stack) (id : nat) (ws : list view) : record := (id, map (show_view s) ws).
